@@ -130,13 +130,13 @@ fn run_case<G: AffineRepr>(env: &Env<G>, c: &Case) -> CaseOut {
 fn cases(ctx: &Ctx, curve: &str) -> Vec<Case> {
     let mut r = R::new(ctx.sub_seed(13, curve.len() as u64));
     let mut v = vec![];
-    let chunks = ctx.n(6, 300);
+    let chunks = ctx.n(40, 600);
     for i in 0..chunks {
         for bases in 0..4u8 {
             v.push(Case { curve: curve.into(), seed: r.u64(), bases, n: if i == 0 { 14 } else { 60 } });
         }
     }
-    for _ in 0..ctx.n(30, 1500) {
+    for _ in 0..ctx.n(200, 3000) {
         v.push(Case { curve: curve.into(), seed: r.u64(), bases: 4, n: 0 });
     }
     v
